@@ -87,6 +87,15 @@ Example C02_example :
   solo_wait_result cf 2 = Some 1%nat /\ closed (sh cf) = [0%nat].
 Proof. vm_compute. repeat split; reflexivity. Qed.
 
+(* Add(0) is an Add call like any other (delta 0 leaves lb and the sum unchanged): on an idle
+   group it leaves the closed sentinel installed, so a Wait at rest gets a closed channel *)
+Example C02_example_add0 :
+  let cf := wg_exec [[CAdd 0]; [CWait]] [0; 0; 0; 1; 1]%nat in
+  adds_in_flight (tr cf) = [] /\ sum_deltas (tr cf) = 0 /\ cnt (sh cf) = 0 /\
+  handed_out (tr cf) = [0%nat] /\ closed (sh cf) = [0%nat] /\
+  well_behaved (tr cf) = true /\ c02_ok (tr cf) = true.
+Proof. vm_compute. repeat split; reflexivity. Qed.
+
 (* the pinned code violates the statement: after a schedule of 2 goroutines every Add has
    returned, Count() = sum of deltas = 1, yet the closed sentinel is installed and a fresh Wait
    run solo is still inside Wait after any number of steps *)
